@@ -109,12 +109,12 @@ let parse_ditems toks (vt : (string, bool) Hashtbl.t) =
       | _ -> failwith "bad item"
     end) toks
 
-(* The CID -> code table of NewFromCMap.  The code as it is keeps the last pair of
-   cmap.All for every CID, also when a later pair re-maps its code (CidEnc.tbl_all;
-   finding cidenc-fromcmap:code-remapped-by-child-cmap, theorem fromcmap_inverse_refuted).
-   Once NewFromCMap is repaired to store only codes which the CMap maps to the CID,
-   replace this by CidEnc.tbl_all_sound (theorem fromcmap_sound_first_wins). *)
-let cid_to_code = CidEnc.tbl_all
+(* The CID -> code table of NewFromCMap.  Since fix F50 (054c244) NewFromCMap stores
+   all[cid] = code only for pairs of cmap.All whose code the CMap really maps to the CID
+   (CidEnc.tbl_all_sound, theorem fromcmap_sound_first_wins).  Before the fix it kept the
+   last pair for every CID, also when a later pair re-mapped its code (CidEnc.tbl_all,
+   theorem fromcmap_inverse_refuted); regress/revert-F50.diff re-introduces that. *)
+let cid_to_code = CidEnc.tbl_all_sound
 
 let uinfo_str (i : CidEnc.uinfo) = Printf.sprintf "%s:%s:%s" (sn i.ui_cid) (sz i.ui_w) (hex i.ui_text)
 
